@@ -55,6 +55,13 @@ PROBES = ['((%s + %s) / 2 > %s)' % (A, B, K), '(%s / 2)' % A, '((%s + 1) / (%s +
           '(%s < %s < %s)' % (A, B, K), '(%s == %s == 1)' % (A, B), '(0 < %s <= %s)' % (A, B), '(1 != %s != %s)' % (A, B),
           'min(%s, %s)' % (A, B), 'max(%s, %s)' % (A, K), 'abs(%s)' % A, '(+%s)' % A, '(%s in (1, 2))' % A]
 
+WIDE = [['self.q.prepare(self.a.get() & 0xFFFFFFFFF0)'],
+        ['self.q.prepare(self.a.get() | 0x100000000)'],
+        ['if (self.a.get() > 0x80000000):', '    self.q.prepare(self.b.get())', 'else:', '    self.q.prepare(0xABCDEF0123)'],
+        ['self.q.prepare(self.b.get() ^ 0x80000000)'],
+        ['self.q.prepare(4294967296)'],
+        ['if (self.a.get() == 0xFFFFFFFFFF):', '    self.q.prepare(2147483648)', 'else:', '    self.q.prepare(2147483647)']]
+
 CLOCK_TEMPLATES = {
     'T1': ['self.q.prepare({E})'],
     'T2': ['self.s = {E}', 'self.q.prepare(self.s)'],
@@ -119,6 +126,12 @@ STRUCT = {
          'elif (self.b.get() == 1):', '    self.q.prepare(0)'],
         ['if (self.a.get() > 0):', '    self.q.prepare(2)', 'if (self.b.get() > 0):', '    self.q.prepare(self.b.get())'],
     ],
+    'doc': [
+        # a method that starts with a (multi-line) docstring
+        ['\"\"\"accumulates a', 'second line; with begin end and other words that are no Verilog', '', 'last line\"\"\"',
+         'self.s = self.s + self.a.get()', 'self.q.prepare(self.s & 7)'],
+        ['\"\"\"one line only\"\"\"', 'self.q.prepare(self.a.get() + self.b.get())'],
+    ],
     'ternary': [
         ['self.s = 1 if self.a.get() else 0', 'self.q.prepare(self.s)'],
         ['self.q.prepare(self.a.get() if self.b.get() == 1 else self.k)'],
@@ -151,6 +164,11 @@ def programs(tier):
             for body in bodies:
                 out.append(dict(base, kind='clock', family=fam, body=body))
         if first:
+            # ports wider than 32 bits with constants of 32 bits and more (no local or state variable exceeds 32 bits)
+            wide = dict(base, wa=40, wb=40, wq=40)
+            for body in WIDE:
+                out.append(dict(wide, kind='clock', family='wide', body=body))
+            out.append(dict(wide, kind='propagate', family='wide', body=['self.q.put((self.a.get() & 0xFF00000000) | 0x80000001)']))
             for e in PROBES:
                 for tname in ('T1', 'T5'):
                     out.append(dict(base, kind='clock', family='probe', body=[l.replace('{E}', e) for l in CLOCK_TEMPLATES[tname]]))
@@ -278,6 +296,8 @@ class Interp:
                 if self.match(case.pattern, subj) and (case.guard is None or self.top(case.guard, 1)):
                     self.block(case.body)
                     break
+        elif isinstance(st, ast.Expr) and isinstance(st.value, ast.Constant):
+            pass            # docstring
         elif isinstance(st, ast.Expr):
             call = st.value
             assert isinstance(call, ast.Call) and call.func.attr in ('prepare', 'put')
